@@ -532,15 +532,31 @@ func runExitPoll(c *core.Ctx) {
 		// the poll may end Run only once the outcome of the section that just ran was dispatched: from Body there is no
 		// path into the poll clause that does not evaluate a switch on the named error result
 		errVar := namedResult(fn, 0)
-		var tag ast.Node
-		ast.Inspect(fn.Body(), func(m ast.Node) bool {
-			if s, ok := m.(*ast.SwitchStmt); ok && s.Tag != nil && errVar != nil && an.ObjOf(info, s.Tag) == errVar && tag == nil {
-				tag = s.Tag
+		// the dispatch on the section outcome: a switch on err, or conditions comparing err with something
+		isHead := func(a ast.Node) bool {
+			ex, ok := a.(ast.Expr)
+			if !ok || errVar == nil {
+				return false
 			}
-			return true
-		})
-		if tag == nil {
-			c.Lost("Run:error-switch", "switch on the named error result not found in Run")
+			if sw, isSw := g.Parent(a).(*ast.SwitchStmt); isSw && sw.Tag == ex && an.ObjOf(info, ex) == errVar {
+				return true
+			}
+			if !g.IsCondAtom(a) {
+				return false
+			}
+			found := false
+			ast.Inspect(ex, func(m ast.Node) bool {
+				if be, ok := m.(*ast.BinaryExpr); ok && (be.Op == token.EQL || be.Op == token.NEQ) {
+					if (an.ObjOf(info, be.X) == errVar && !isNilIdent(info, be.Y)) || (an.ObjOf(info, be.Y) == errVar && !isNilIdent(info, be.X)) {
+						found = true
+					}
+				}
+				return true
+			})
+			return found
+		}
+		if len(g.FindAtoms(isHead)) == 0 {
+			c.Lost("Run:error-dispatch", "no dispatch on the named error result (switch or sentinel comparisons) found in Run")
 		} else {
 			first := func(list []ast.Stmt) ast.Node {
 				if len(list) == 0 {
@@ -558,7 +574,7 @@ func runExitPoll(c *core.Ctx) {
 				q := g.Search(an.Query{From: b, Target: func(a ast.Node) bool {
 					pa, ok1 := g.PointOf(a)
 					return ok1 && ok2 && pa.Block == pt.Block
-				}, Avoid: func(a ast.Node) bool { return a == tag }})
+				}, Avoid: isHead})
 				if q.Found {
 					found = true
 				}
